@@ -185,6 +185,10 @@ func c20Newlines(c *core.Ctx) {
 		{"printf \"Q\"\n", []string{"print \"Q\"\n", "printf \"Q\"\n", "printf \"%s\" \"Q\"\n"}, "bc"},
 		{"print \"\"\n", []string{"// prints nothing\n", "print \"\"\n", "printf \"\\n\\n\"\n"}, "b"},
 		{"print \"a\"\nprint \"b\"\n", []string{"printf \"a\\nb\"\n", "print \"a\\nb\"\n", "print \"a\"\nprint \"b\"\nprint \"\"\n"}, "b"},
+		// outputs differing only in leading / trailing blanks, indentation of the first line, a tab
+		{"print \"hi \"\n", []string{"print \"hi\"\n", "print \"hi \"\n", "print \" hi \"\n", "print \"hi  \"\n"}, "b"},
+		{"print \"  *\"\nprint \" ***\"\n", []string{"print \"*\"\nprint \" ***\"\n", "print \"  *\"\nprint \" ***\"\n", "print \"  *\"\nprint \"***\"\n"}, "b"},
+		{"print \"x\"\n", []string{"print \"\\tx\"\n", "print \"x\\t\"\n", "print \"x\"\n", "print \"x\\r\"\n"}, "c"},
 	}
 	for qi, qu := range qs {
 		md := "## Question\n\nWhich programs print the same as this one?\n\n```evy\n" + qu.question + "```\n\nChoose:\n\n"
